@@ -457,30 +457,6 @@ type caseLine struct {
 	Val     []any  `json:"val"`
 }
 
-func hasArrayOfDynamic(t ty) bool {
-	if t.K == "array" && t.Sub[0].isDynamic() {
-		return true
-	}
-	for _, s := range t.Sub {
-		if hasArrayOfDynamic(s) {
-			return true
-		}
-	}
-	return false
-}
-
-func hasOddInt(t ty) bool {
-	if (t.K == "uint" || t.K == "int") && t.N != 8 && t.N != 16 && t.N != 32 && t.N != 64 && t.N != 256 {
-		return true
-	}
-	for _, s := range t.Sub {
-		if hasOddInt(s) {
-			return true
-		}
-	}
-	return false
-}
-
 func sig(ts []ty) string {
 	p := make([]string, len(ts))
 	for i, t := range ts {
@@ -553,12 +529,7 @@ func runCases(in string, sum *tl.Summary) {
 		case u.ok && u.err != "":
 			viol("Unpack returned a value of the wrong shape: "+u.err, tl.M{})
 		case c.Verdict == "reject" && u.ok:
-			if pend := recognised(c, args, mem, u); pend != "" && !strict[pend] {
-				notePending(sum, pend, fmt.Sprintf("(%s) %s case: Unpack accepts %x, the specification rejects", s, c.Ph, mem),
-					tl.M{"type": s, "case": c.Ph, "note": c.Note, "bytes": fmt.Sprintf("%x", mem), "got": plain(u.vals)})
-			} else {
-				viol(fmt.Sprintf("Unpack accepts (%v) what the specification rejects", plain(u.vals)), tl.M{"got": plain(u.vals)})
-			}
+			viol(fmt.Sprintf("Unpack accepts (%v) what the specification rejects", plain(u.vals)), tl.M{"got": plain(u.vals)})
 		case c.Verdict == "accept" && !u.ok:
 			viol("Unpack rejects a canonical encoding: "+u.err, tl.M{})
 		case u.ok:
@@ -588,68 +559,6 @@ func runCases(in string, sum *tl.Summary) {
 	sum.Rule = "every TLC-enumerated case (argument types x sample value / mutated encoding / word string) executed on abi.Arguments Pack and Unpack; distinct = distinct (type list, case kind, verdict, outcome)"
 }
 
-// strict lists the recognised deviations that are NOT admitted in this run (-strict).
-var strict = map[string]bool{}
-
-// notePending records a match of a recognised deviation in Summary.Extra["pending"].
-func notePending(sum *tl.Summary, id, desc string, sample any) {
-	p, _ := sum.Extra["pending"].(map[string]any)
-	if p == nil {
-		p = map[string]any{}
-		sum.Extra["pending"] = p
-	}
-	e, _ := p[id].(map[string]any)
-	if e == nil {
-		e = map[string]any{"count": 0, "desc": desc, "sample": sample}
-		p[id] = e
-	}
-	e["count"] = e["count"].(int) + 1
-}
-
-// recognised returns the id of the recognised deviation (spec/codec/NOTES.md) that explains why
-// Unpack accepted an input the specification rejects, or "".  Both are being repaired in /repo; until
-// the repairs land the check admits exactly these fingerprints (unless run with -strict).
-func recognised(c caseLine, args abi.Arguments, mem []byte, u unpacked) string {
-	// C51-F1: for T[k] with dynamic T, toGoType reads the offset word with
-	// binary.BigEndian.Uint64(word[24:]) and ignores its upper 24 bytes.  Fingerprint: some
-	// argument contains such an array, and zeroing the upper 24 bytes of one word of the input
-	// yields an input that decodes to the same value.
-	arr := false
-	odd := false
-	for _, t := range c.Args {
-		arr = arr || hasArrayOfDynamic(t)
-		odd = odd || hasOddInt(t)
-	}
-	if arr {
-		for p := 0; p+32 <= len(mem); p += 32 {
-			dirty := false
-			for _, b := range mem[p : p+24] {
-				dirty = dirty || b != 0
-			}
-			if !dirty {
-				continue
-			}
-			m2 := append([]byte{}, mem...)
-			for i := p; i < p+24; i++ {
-				m2[i] = 0
-			}
-			u2 := unpack(args, c.Args, m2)
-			if u2.ok && specEqual(any(u2.vals), any(u.vals)) {
-				return "C51-F1"
-			}
-		}
-	}
-	// C51-F2: ReadInteger range-checks only the widths 8/16/32/64; uintN/intN of
-	// any other width below 256 accept words outside their range.  Fingerprint: an argument
-	// contains such a type and the accepted value re-encodes to exactly the input prefix.
-	if odd {
-		if re, err := pack(args, u.raw); err == nil && bytes.HasPrefix(mem, re) {
-			return "C51-F2"
-		}
-	}
-	return ""
-}
-
 // ------------------------------------------------------------------ mode record (V)
 
 func leaf(k string, n int) ty { return ty{K: k, N: n, Sub: []ty{}} }
@@ -658,9 +567,9 @@ func randType(r *rand.Rand, depth int) ty {
 	if depth == 0 || r.Intn(3) == 0 {
 		switch r.Intn(9) {
 		case 0:
-			return leaf("uint", []int{8, 16, 32, 64, 256, 256}[r.Intn(6)])
+			return leaf("uint", []int{8, 16, 24, 32, 40, 64, 128, 248, 256, 256}[r.Intn(10)])
 		case 1:
-			return leaf("int", []int{8, 16, 32, 64, 256}[r.Intn(5)])
+			return leaf("int", []int{8, 16, 24, 32, 40, 64, 128, 248, 256}[r.Intn(9)])
 		case 2:
 			return leaf("bool", 0)
 		case 3:
@@ -888,13 +797,7 @@ func main() {
 	trace := flag.String("trace", "trace.ndjson", "output trace")
 	out := flag.String("out", "summary.json", "summary output")
 	n := flag.Int("n", 100, "random type/value rounds")
-	strictFlag := flag.String("strict", "", "comma separated recognised deviations that are not admitted")
 	flag.Parse()
-	for _, id := range strings.Split(*strictFlag, ",") {
-		if id != "" {
-			strict[id] = true
-		}
-	}
 	seed := int64(tl.EnvInt("VERIF_SEED", 1))
 	sum := tl.NewSummary("c51", *mode, seed)
 	switch *mode {
